@@ -92,6 +92,10 @@ pub fn programs() -> Vec<String> {
         v.push(format!("inc takes k\ngive back k plus 1\n\nput 0 into c\nwhile c is less than {}\nput inc taking c into c\n\nsay c\n", n));
         v.push(format!("rock w\nput 0 into c\nwhile c is less than {}\nbuild c up\nrock w with c\n\nsay w\nsay w at 0\nsay w at {}\nroll w\nsay w\n", n, n - 1));
     }
+    // a queue with keys, filled beyond n elements and drained completely: the keys stay
+    for n in [8usize, 16, 64, 65, 66, 100, 300] {
+        v.push(format!("let q at \"k\" be 7\nlet q at true be 8\nrock q with {}\nput q into p\nput 0 into c\nwhile c is less than {}\nbuild c up\nroll q\n\nsay q at \"k\"\nsay q at true\nsay q\nrock q with 1\nsay q at \"k\"\nsay q at 0\nsay p at \"k\"\nsay p\nroll p\nsay p at \"k\"\n", list(n, |i| (i + 1).to_string()), n));
+    }
     // empty then-blocks executed n times in one activation; fresh arrays created in every iteration
     for n in [3usize, 255, 256, 257, 300, 1024] {
         v.push(format!("put 0 into c\nput 0 into t\nwhile c is less than {}\nbuild c up\nif c\nelse\nsay 0\n\nif c is 0\nelse\nbuild t up\n\n\nsay c\nsay t\n", n));
